@@ -721,7 +721,13 @@ func BFS(p *Pool, ops []Op, maxLive int, maxStates int, workers int, expired fun
 						continue
 					}
 					var r res
+					twin := lastModeKey(st) != ""
 					for _, op := range ops {
+						if twin && op.Mode == TxnCommit {
+							// the twin exists to try every operation right after a committed managed transaction;
+							// its direct and aborted forms do that, the committed form is tried from the first state
+							continue
+						}
 						nx, vs := safeStep(step, st, op)
 						r.n++
 						r.viols = append(r.viols, vs...)
